@@ -1044,6 +1044,39 @@ fn emit_enum(out: &mut String, e: &EnumDef) {
     }
 }
 
+/// Shapes for which the flatty-io drivers are instantiated (C07-C10): the hand-written
+/// unsized anchors, a few containers and sized types, and the first generated unsized shapes.
+pub fn is_message_shape(t: &Ty, generated_so_far: &mut usize) -> bool {
+    let name = t.rust();
+    match t {
+        Ty::Struct(s) if s.name.starts_with('A') => !s.sized || s.name == "ASizedStruct" || s.name == "APortableStruct",
+        Ty::Enum(e) if e.name.starts_with('A') => !e.sized || e.name == "ASizedEnum",
+        Ty::Struct(_) | Ty::Enum(_) => {
+            if !t.is_sized() && t.weight() <= 14 && *generated_so_far < 24 {
+                *generated_so_far += 1;
+                true
+            } else {
+                false
+            }
+        }
+        Ty::Prim(p) => *p == Prim::U32,
+        _ => [
+            "::flatty::FlatVec<u8, u32>",
+            "::flatty::FlatString<u32>",
+            "::flatty::FlatString<u8>",
+            "::flatty::FlexVec<u8, u8>",
+            "::flatty::FlexVec<::flatty::FlatVec<u8, u8>, u8>",
+            "::flatty::FlexVec<::flatty::FlatString<u16>, u32>",
+            "::flatty::FlexVec<AUnsizedEnum, u16>",
+            "::flatty::FlatVec<AWithBool, u16>",
+            "::flatty::FlexVec<::flatty::FlatVec<i32, u16>, u16>",
+            "::flatty::FlatVec<u16, ::flatty::portable::le::U16>",
+            "[::flatty::portable::Bool; 4]",
+        ]
+        .contains(&name.as_str()),
+    }
+}
+
 /// Emit the Rust source for a corpus: definitions, glue and registry.
 pub fn emit(shapes: &[Ty], fn_name: &str) -> String {
     let mut out = String::new();
@@ -1057,8 +1090,13 @@ pub fn emit(shapes: &[Ty], fn_name: &str) -> String {
     }
     writeln!(out, "pub fn {}() -> Vec<Box<dyn DynShape>> {{", fn_name).unwrap();
     writeln!(out, "    vec![").unwrap();
+    let mut n_io = 0;
     for s in shapes {
-        writeln!(out, "        entry::<{}>(),", s.rust()).unwrap();
+        if is_message_shape(s, &mut n_io) {
+            writeln!(out, "        entry_io::<{}>(),", s.rust()).unwrap();
+        } else {
+            writeln!(out, "        entry::<{}>(),", s.rust()).unwrap();
+        }
     }
     writeln!(out, "    ]").unwrap();
     writeln!(out, "}}").unwrap();
